@@ -51,7 +51,12 @@ def strip_tags(value: str) -> str:
     """Return the given value with all HTML tags removed."""
     if "<" in value and ">" in value:
         parser = StripParser()
-        parser.feed(value)
-        parser.close()
+        try:
+            parser.feed(value)
+            parser.close()
+        except AssertionError:
+            # html.parser asserts on some malformed marked sections, "<![x]>" for
+            # example. Treat the value as plain text.
+            return value
         return parser.get_data()
     return value
